@@ -25,6 +25,7 @@ inductive Val where
   | hash (h : KMap Scalar)                -- map[string]interface{}
   | set (oid : Nat) (ms : List Bytes)     -- *set.Set (members, unordered, unique); oid ≠ 0 names a pointer shared by several keys
   | zset (oid : Nat) (ms : KMap Flt)      -- *sorted_set.SortedSet (member → score); oid as for set
+  | ilist (xs : List Bytes)               -- []interface{} of strings: what encoding/json makes of a stored list
 deriving DecidableEq, Repr, Inhabited
 
 /-- pointer identity of a stored set / sorted set (0 = not shared, or not a pointer type) -/
@@ -79,6 +80,7 @@ def Entry.getMem (e : Entry) : Int :=
   | .list xs => (xs.map fun s => szString + (s.length : Int)).sum
   | .set _ ms => szPtr + szMapHdr + (ms.map fun k => szString + (k.length : Int) + szIface).sum
   | .zset _ ms => szPtr + (ms.map fun (k, _) => szString + (k.length : Int) + szMemberObject + szString + (k.length : Int)).sum
+  | .ilist _ => 0   -- GetMem fails on []interface{}; the persistence model never lets a command touch such a key
 
 open Gen in
 /-- per-key overhead added by setValues / removed by deleteKey -/
@@ -92,6 +94,7 @@ def Val.fmtV : Val → Option Bytes
   | .int i => some (fmtInt i)
   | .flt f => some f.fmtG
   | .list xs => some (b "[" ++ (xs.intersperse (b " ")).flatten ++ b "]")
+  | .ilist xs => some (b "[" ++ (xs.intersperse (b " ")).flatten ++ b "]")
   | .hash _ => none
   | .set _ _ => none
   | .zset _ _ => none
